@@ -138,8 +138,11 @@ func bytepad(input []byte, w int) []byte {
 	buf := make([]byte, 0, maxEncodeLen+len(input)+w)
 	buf = append(buf, leftEncode(uint64(w))...)
 	buf = append(buf, input...)
-	padlen := w - (len(buf) % w)
-	return append(buf, make([]byte, padlen)...)
+	// pad with zeros to a multiple of w; no padding is added when the length is already a multiple of w
+	if padlen := w - (len(buf) % w); padlen < w {
+		buf = append(buf, make([]byte, padlen)...)
+	}
+	return buf
 }
 
 // "right_encode" function as defined in NIST SP 800-185 (for value < 2^64)
